@@ -64,7 +64,7 @@ def register(PROPS):
         'level': 'model_checking',
         'technique': 'explicit-state exploration of the real echsd command handling against a map model',
         'claim': 'Peers 1000 and 1001 (and root for listing) over UIDs {A, a UID searched at start-up whose 32-bit hash agrees with A\'s in the low 6-10 bits (the 16-slot table must grow by much more than double), a UID in another slot with hash bits between the old and the new table size}: every history up to the stated depth over '
-                 '{ADD with owner field absent / = self / = other (as a number and as a user name) / a number that no user has, two instructions in one request, CANCEL (also of unknown and foreign UIDs), '
+                 '{ADD with owner field absent / = self / = other (as a number and as a user name) / a number that no user has, ADD by a peer (uid 4242) whom the user data base does not know with the owner absent / 1000 / alice (must be refused, nothing may change), two instructions in one request, CANCEL (also of unknown and foreign UIDs), '
                  'GET /queue (own and another user\'s), GET /sched, TICK} is executed; the number and kind of REQUEST-STATUS replies, the task '
                  'table with owners, the bodies of the listings (no foreign or stale UID, own queued UIDs present) and the SETUID of every started '
                  'job are compared with a map<UID, (owner, schedule)> model.  A narrow alphabet (ADD of three UIDs and GET /queue, both peers) reaches depth 7 (thorough 9), including an ADD whose sender has closed its socket before the daemon answers (the failed write must leave nothing behind for the next client on that descriptor), once with peers 1000/1001 and once with 1000/2040 (uids whose highest bits differ: the index over the per-user change notes files them apart); the dirty list enters the canonical state as it is, order and repetitions included.  Linear "busy" histories reach what depth cannot: 17 acknowledged requests between two checkpoints (the 17th by the same or by another user) followed by the listing, and 300 (thorough also 1500) distinct UIDs of one user next to 3 of another in one daemon life - queue files and listings must hold exactly the submitted UIDs, every UID must be cancellable by its owner, nothing may be left; 40 clients connected at the same time (each has sent half of its request when the others send theirs) must each get the reply to their own request and have their task filed under their own uid; requests of 44 instructions (replies beyond 4096 octets) with the first UID growing by one character over 128 rounds must find the status line of every instruction in the reply.  The client side of the listing (c11_echsq: the unmodified echsq.c run in-process, socket()/connect() handed a socketpair whose far end holds a ready-made reply): for every UID length 1..128 (thorough 1..4096) and every number of UIDs from 1 to what fills 3 (thorough 6) requests plus 2, in the forms list / list -u 0 / list --user=1000 / next / list --brief / list --next -u65534 / list with only one of the two daemons there, every request must be a complete "GET /[u/N/]queue|sched?tuid=..&tuid=.. HTTP/1.1" followed by an empty line, of at most 4096 octets, naming at least one UID; the multiset of UIDs asked of each daemon must equal the argument list (a UID never asked for cannot be listed) and echsq must print the replies in order and exit 0 (non-trivial there = the list had to be split over several requests); argument lists that leave fewer than 14 octets free in echsq\'s 4096-octet request buffer are left out (edge=1 puts them in: the unchanged echsq cuts the request line short there and hangs, e.g. echsq list with 582 UIDs of one character).',
